@@ -284,8 +284,15 @@ def encodings(r, rows, labels, vartype_name='INTEGER', allow_float=True, all_dty
         lit = '[' + ', '.join(dict_lit(row, o) for row, o in zip(rows, orders)) + ']'
         outs.append(('dicts', lit, {'orders': cls}))
         outs.append(('dicts-iter', f'iter({lit})', {'orders': cls}))
+        # further one-shot iterables of samples, and samples that are Mappings but not dicts
+        one_shot = [('dicts-gen', f'(d_ for d_ in {lit})'), ('dicts-map', f'map(dict, {lit})'),
+                    ('dicts-mappingproxy', f'[__import__("types").MappingProxyType(d_) for d_ in {lit}]'),
+                    ('dicts-mappingproxy-gen', f'(__import__("types").MappingProxyType(d_) for d_ in {lit})')]
+        for nm, ex in (one_shot if all_dtypes else r.sample(one_shot, 2)):
+            outs.append((nm, ex, {'orders': cls}))
     if len(rows) == 1:
         outs.append(('dict', dict_lit(rows[0], perm_of(r, labels)), {}))
+        outs.append(('mapping', f'__import__("collections").ChainMap({dict_lit(rows[0], perm_of(r, labels))})', {}))
         perm = perm_of(r, labels)
         if n:
             outs.append(('1d+labels', f'(np.array([{", ".join(fl(rows[0][l]) for l in perm)}], dtype={dt}), {perm!r})', {}))
@@ -341,6 +348,82 @@ def gen_bqm(r, R, name='m', dtype=None, vartype=None, labels=None, nmax=5):
     if r.random() < .8:
         R.do(f'{name}.offset = {fl(q8(r))}')
     return list(labels), vt
+
+
+
+def edit_history(ctx, r, R, dtype, nops=None, allow_cv=True, tag='history op'):
+    """1-5 public edits of the BQM `m` of recipe R (relabel, swap, as_integers, remove / re-add, contract, fix, update, flip,
+    scale, copies, pickle, file, in-place change_vartype, remove_interaction, add_quadratic): the state the property is then
+    checked on is one an edit history left, not a freshly built one.  Returns the set of op kinds, or None when a call was
+    rejected (the case is dropped: the object may be half-edited, which is C04's matter)."""
+    if 'pickle' not in R.ns:
+        R.do('import copy, pickle')
+    kinds = set()
+    for _ in range(nops or r.randint(1, 5)):
+        m = R['m']
+        cur = list(m.variables)
+        free = [l for l in LABELS if l not in cur]
+        kind = r.choice(['relabel', 'relabel', 'relabel', 'relabel_copy', 'as_integers', 'swap', 'remove_readd', 'remove', 'contract', 'fix',
+                         'update', 'flip', 'scale', 'copy', 'deepcopy', 'pickle', 'cv', 'rmint', 'addquad', 'fromfile'])
+        line = None
+        if kind in ('relabel', 'relabel_copy') and cur and free:
+            k = r.randint(1, min(len(cur), len(free), 3))
+            mp = dict(zip(r.sample(cur, k), r.sample(free, k)))
+            line = f'm.relabel_variables({mp!r})' if kind == 'relabel' else f'm = m.relabel_variables({mp!r}, inplace=False)'
+        elif kind == 'swap' and len(cur) >= 2:
+            a, b = r.sample(cur, 2)
+            mp = {a: b, b: a} if r.random() < .6 or len(cur) < 3 else dict(zip(cur, cur[1:] + cur[:1]))
+            line = f'm.relabel_variables({mp!r})'
+        elif kind == 'as_integers' and cur:
+            line = 'm.relabel_variables_as_integers()'
+        elif kind == 'remove_readd' and cur:
+            v = r.choice(cur)
+            others = [u for u in cur if u != v]
+            line = f'm.remove_variable({v!r}); m.add_linear({v!r}, {fl(q8(r))})'
+            for u in r.sample(others, min(len(others), r.choice([0, 1, 2]))):
+                line += f'; m.add_quadratic({u!r}, {v!r}, {fl(q8(r))})'
+        elif kind == 'remove' and len(cur) >= 2:
+            line = f'm.remove_variable({r.choice(cur)!r})'
+        elif kind == 'contract' and len(cur) >= 2:
+            a, b = r.sample(cur, 2)
+            line = f'm.contract_variables({a!r}, {b!r})'
+        elif kind == 'fix' and len(cur) >= 2:
+            line = f'm.fix_variable({r.choice(cur)!r}, {r.choice(domain(m.vartype.name))})'
+        elif kind == 'update':
+            ol = r.sample(LABELS, r.choice([1, 2, 3]))
+            lin = {l: q8(r) for l in ol}
+            quad = {tuple(r.sample(ol, 2)): q8(r)} if len(ol) >= 2 else {}
+            line = f'm.update(BQM({lin!r}, {quad!r}, {fl(q8(r))}, {m.vartype.name!r}, dtype={dtype}))'
+        elif kind == 'flip' and cur:
+            line = f'm.flip_variable({r.choice(cur)!r})'
+        elif kind == 'scale':
+            line = f'm.scale({r.choice([2, -1, 0.5])})'
+        elif kind == 'copy':
+            line = 'm = m.copy()'
+        elif kind == 'deepcopy':
+            line = 'm = copy.deepcopy(m)'
+        elif kind == 'pickle':
+            line = 'm = pickle.loads(pickle.dumps(m))'
+        elif kind == 'fromfile' and dtype != 'object':
+            line = 'm = BQM.from_file(m.to_file())'
+        elif kind == 'cv' and allow_cv:
+            line = f'm.change_vartype({("BINARY" if m.vartype.name == "SPIN" else "SPIN")!r}, inplace=True)'
+        elif kind == 'rmint' and m.num_interactions:
+            a, b, _ = r.choice(list(m.iter_quadratic()))
+            line = f'm.remove_interaction({a!r}, {b!r})'
+        elif kind == 'addquad' and len(cur) >= 2:
+            a, b = r.sample(cur, 2)
+            line = f'm.add_quadratic({a!r}, {b!r}, {fl(q8(r))})'
+        if line is None:
+            continue
+        try:
+            R.do(line)
+        except Exception:  # noqa
+            ctx.tick(f'{tag} rejected: ' + kind)
+            return None
+        kinds.add(kind)
+        ctx.tick(f'{tag}: ' + kind)
+    return kinds
 
 
 def gen_qm(r, R, name='m', dtype=None, labels=None, nmax=5, vartypes=('BINARY', 'SPIN', 'INTEGER', 'REAL')):
